@@ -1,4 +1,5 @@
 import Adsb.Print
+import Adsb.Icao
 /-! Line-protocol driver: one operation per input line, one canonical line of output. -/
 open Adsb
 
@@ -9,6 +10,14 @@ def runOp (line : String) : String :=
   | ["F", h] => match parseBuf h with
       | some B => showRes Frame.show (decode B)
       | none => "BADOP"
+  | ["I", h] => match parseBuf h with
+      | some ⟨[x, y, z]⟩ =>
+        let a := x.toNat * 65536 + y.toNat * 256 + z.toNat
+        let s := icaoToString a
+        match parseRadix16 s with
+        | some b => s!"ICAO {String.ofList s} {if b = a then "same" else "DIFF"}"
+        | none => s!"ICAO {String.ofList s} parse-error"
+      | _ => "BADOP"
   | _ => "BADOP"
 
 partial def loop (h : IO.FS.Stream) (out : IO.FS.Stream) : IO Unit := do
